@@ -735,6 +735,20 @@ Lemma bind_be_get n b (k : Z -> M B) h : Z.of_nat n <= s_len b ->
   bind (be_get n b) k h = k (be_val (firstn n (sl_get h b))) h.
 Proof. intros Hn. unfold bind, be_get. destruct (Z.leb_spec (Z.of_nat n) (s_len b)); [reflexivity|lia]. Qed.
 
+Lemma bind_godiv w x y (k : Z -> M B) h : y <> 0 ->
+  bind (godiv w x y) k h = k (w (Z.quot x y)) h.
+Proof. intros Hy. unfold bind, godiv. destruct (Z.eqb_spec y 0); [contradiction|reflexivity]. Qed.
+
+Lemma bind_gorem w x y (k : Z -> M B) h : y <> 0 ->
+  bind (gorem w x y) k h = k (w (Z.rem x y)) h.
+Proof. intros Hy. unfold bind, gorem. destruct (Z.eqb_spec y 0); [contradiction|reflexivity]. Qed.
+
+Lemma bind_godiv_zero w x (k : Z -> M B) h : bind (godiv w x 0) k h = GoPanic.
+Proof. reflexivity. Qed.
+
+Lemma bind_gorem_zero w x (k : Z -> M B) h : bind (gorem w x 0) k h = GoPanic.
+Proof. reflexivity. Qed.
+
 End Steps.
 
 (* a fresh array: the old slices are untouched, the new one holds zeros *)
@@ -814,6 +828,8 @@ Ltac go_step :=
   | |- context [bind (gomake ?n) ?k ?h] => rewrite (bind_gomake n k h) by go_side
   | |- context [bind (be_put ?n ?b ?v) ?k ?h] => rewrite (bind_be_put n b v k h) by go_side
   | |- context [bind (be_get ?n ?b) ?k ?h] => rewrite (bind_be_get n b k h) by go_side
+  | |- context [bind (godiv ?w ?x ?y) ?k ?h] => rewrite (bind_godiv w x y k h) by go_side
+  | |- context [bind (gorem ?w ?x ?y) ?k ?h] => rewrite (bind_gorem w x y k h) by go_side
   end.
 
 (* case split on the first condition of the goal *)
